@@ -269,9 +269,10 @@ pub fn parse_file_internal(context: &ParseContext) -> Result<(), Error> {
     let mut source = String::new();
     file.read_to_string(&mut source)?;
 
+    let start_paths = include_paths.clone();
     let include_paths = RefCell::new(include_paths);
 
-    let context = ParseContext {
+    let file_context = ParseContext {
         current_path,
         include_paths,
         common_context,
@@ -280,7 +281,12 @@ pub fn parse_file_internal(context: &ParseContext) -> Result<(), Error> {
         messages,
     };
 
-    parse(source.as_str(), &context)?;
+    parse(source.as_str(), &file_context)?;
+
+    // directories added by .includepath inside the file stay known after the file ends
+    for path in file_context.include_paths.borrow().difference(&start_paths) {
+        context.include_paths.borrow_mut().insert(path.clone());
+    }
 
     Ok(())
 }
